@@ -8,9 +8,15 @@ package main
 import (
 	"bytes"
 	"encoding/binary"
+	"encoding/json"
 	"fmt"
 	"net"
 	"os"
+	"os/exec"
+	"runtime"
+	"strconv"
+	"strings"
+	"sync/atomic"
 	"syscall"
 	"time"
 
@@ -20,6 +26,11 @@ import (
 
 func init() {
 	pipeSpaces["mirror.len"] = mirrorSpace
+	pipeSpaces["mirror.slowlink"] = slowlinkSpace
+	if v := os.Getenv(slowEnv); v != "" {
+		slowlinkChild(v)
+		os.Exit(0)
+	}
 }
 
 type mirrorRig struct {
@@ -284,4 +295,315 @@ func mirrorSpace(tier string) mck.Space {
 			c.Sample(desc)
 		}
 	}}
+}
+
+// ---------------------------------------------------------------------------------------------
+// mirror.slowlink: the environment answer loopback never gives - a link towards the third-party
+// collector that is slower than the burst to be mirrored. Each case runs in a child process with a
+// network namespace of its own (CLONE_NEWNET): a veth pair whose sending side is shaped by a token
+// bucket (8 Mbit/s, queue far larger than a socket send buffer, so the shaper drops nothing), a
+// permanent neighbour entry for the target, and an AF_PACKET capture on the far end standing in for
+// the third party. The real mirrorIPFIX / mirrorSFlow goroutine is handed a burst of n datagrams and,
+// after the link has drained, one more. Ends are state barriers (goroutine state from the runtime's
+// dump, queue length of the channel, backlog of the shaper), never a timeout.
+
+const slowEnv = "ZZ_VERIF_SLOWLINK"
+
+type slowCase struct {
+	SFlow  bool
+	N      int
+	Lo, Hi int
+}
+
+type slowResult struct {
+	Setup        string   // non-empty: the environment could not be built (no verdict)
+	Seen         int      // burst datagrams that reached the far end unchanged
+	FirstMissing int      // -1: none
+	Errors       []string // changed datagrams
+	AfterSeen    bool     // the datagram handed over after the link had drained arrived
+	WorkerGone   bool     // the mirror goroutine had returned
+	Backpressure bool     // the sender was seen waiting in the kernel while the shaper held packets
+}
+
+func slowPayload(c slowCase, i int) []byte {
+	b := make([]byte, c.Lo+i%(c.Hi-c.Lo+1))
+	for k := range b {
+		b[k] = byte(i*7 + k)
+	}
+	binary.BigEndian.PutUint32(b, uint32(i))
+	return b
+}
+
+// mirrorGoroutineState: "" when no goroutine is inside the mirror function, else the runtime's wait state
+func mirrorGoroutineState(fn string) string {
+	buf := make([]byte, 1<<18)
+	n := runtime.Stack(buf, true)
+	for _, g := range strings.Split(string(buf[:n]), "\n\n") {
+		if strings.Contains(g, fn+"(") {
+			h := strings.SplitN(g, "\n", 2)[0]
+			if i := strings.Index(h, "["); i >= 0 {
+				return strings.TrimSuffix(h[i+1:], "]:")
+			}
+			return "?"
+		}
+	}
+	return ""
+}
+
+func shaperBacklog() (pkts int, err error) {
+	out, err := exec.Command("tc", "-s", "qdisc", "show", "dev", "zzv0").CombinedOutput()
+	if err != nil {
+		return 0, fmt.Errorf("tc -s: %v: %s", err, out)
+	}
+	f := strings.Fields(string(out))
+	for i, w := range f {
+		if w == "backlog" && i+2 < len(f) {
+			return strconv.Atoi(strings.TrimSuffix(f[i+2], "p"))
+		}
+	}
+	return 0, fmt.Errorf("tc -s: no backlog in %q", out)
+}
+
+func slowlinkChild(arg string) {
+	var c slowCase
+	var res slowResult
+	res.FirstMissing = -1
+	emit := func() {
+		b, _ := json.Marshal(res)
+		fmt.Printf("R %s\n", b)
+		os.Exit(0)
+	}
+	if err := json.Unmarshal([]byte(arg), &c); err != nil {
+		res.Setup = "bad case: " + err.Error()
+		emit()
+	}
+	const port = 4172
+	exporter, target := net.ParseIP("198.51.100.7"), net.ParseIP("10.77.0.2")
+	for _, a := range [][]string{
+		{"ip", "link", "set", "lo", "up"},
+		{"ip", "link", "add", "zzv0", "type", "veth", "peer", "name", "zzv1"},
+		{"ip", "addr", "add", "10.77.0.1/24", "dev", "zzv0"},
+		{"ip", "link", "set", "zzv0", "up"},
+		{"ip", "link", "set", "zzv1", "up"},
+		{"ip", "neigh", "replace", "10.77.0.2", "lladdr", "02:00:00:00:77:02", "dev", "zzv0", "nud", "permanent"},
+		{"tc", "qdisc", "add", "dev", "zzv0", "root", "tbf", "rate", "8mbit", "burst", "16kb", "limit", "4mb"},
+	} {
+		if out, err := exec.Command(a[0], a[1:]...).CombinedOutput(); err != nil {
+			res.Setup = fmt.Sprintf("%v: %v: %s", a, err, out)
+			emit()
+		}
+	}
+	ifi, err := net.InterfaceByName("zzv1")
+	if err != nil {
+		res.Setup = err.Error()
+		emit()
+	}
+	htons := func(v uint16) uint16 { return v<<8 | v>>8 }
+	fd, err := syscall.Socket(syscall.AF_PACKET, syscall.SOCK_DGRAM, int(htons(syscall.ETH_P_IP)))
+	if err == nil {
+		err = syscall.Bind(fd, &syscall.SockaddrLinklayer{Protocol: htons(syscall.ETH_P_IP), Ifindex: ifi.Index})
+	}
+	if err != nil {
+		res.Setup = "capture socket: " + err.Error()
+		emit()
+	}
+	syscall.SetsockoptInt(fd, syscall.SOL_SOCKET, syscall.SO_RCVBUFFORCE, 16<<20)
+
+	const udpSize = 1500
+	o := NewOptions()
+	o.IPFIXUDPSize, o.SFlowUDPSize = udpSize, udpSize
+	opts = o
+	body := func(i int) []byte {
+		b := make([]byte, udpSize)
+		p := slowPayload(c, i)
+		return b[:copy(b, p)]
+	}
+	raddr := &net.UDPAddr{IP: exporter, Port: 40000}
+	var qlen func() int
+	var hand func(i int)
+	var returned int32 // the mirror function has returned (it never does while it works)
+	fn := "main.mirrorIPFIX"
+	if c.SFlow {
+		fn = "main.mirrorSFlow"
+		sFlowBuffer = &sync.Pool{New: func() interface{} { return make([]byte, udpSize) }}
+		ch := make(chan SFUDPMsg, c.N+1)
+		qlen, hand = func() int { return len(ch) }, func(i int) { ch <- SFUDPMsg{raddr, body(i)} }
+		for i := 0; i < c.N; i++ {
+			hand(i)
+		}
+		go func() { mirrorSFlow(target, port, ch); atomic.StoreInt32(&returned, 1) }()
+	} else {
+		ipfixBuffer = &sync.Pool{New: func() interface{} { return make([]byte, udpSize) }}
+		ch := make(chan IPFIXUDPMsg, c.N+1)
+		qlen, hand = func() int { return len(ch) }, func(i int) { ch <- IPFIXUDPMsg{raddr, body(i)} }
+		for i := 0; i < c.N; i++ {
+			hand(i)
+		}
+		go func() { mirrorIPFIX(target, port, ch); atomic.StoreInt32(&returned, 1) }()
+	}
+
+	seen := make([]bool, c.N+1)
+	buf := make([]byte, 65536)
+	drain := func() (got int) {
+		for {
+			m, _, e := syscall.Recvfrom(fd, buf, syscall.MSG_DONTWAIT)
+			if e != nil {
+				return
+			}
+			p := buf[:m]
+			if m < 28 || p[0] != 0x45 || p[9] != 17 || int(binary.BigEndian.Uint16(p[22:])) != port {
+				continue
+			}
+			got++
+			if !net.IP(p[12:16]).Equal(exporter) || !net.IP(p[16:20]).Equal(target) {
+				res.Errors = append(res.Errors, fmt.Sprintf("addresses %v -> %v", net.IP(p[12:16]), net.IP(p[16:20])))
+				continue
+			}
+			if int(binary.BigEndian.Uint16(p[2:])) != m || int(binary.BigEndian.Uint16(p[24:])) != m-20 {
+				res.Errors = append(res.Errors, fmt.Sprintf("lengths: ip %d udp %d in a packet of %d octets", binary.BigEndian.Uint16(p[2:]), binary.BigEndian.Uint16(p[24:]), m))
+				continue
+			}
+			if m < 32 {
+				res.Errors = append(res.Errors, "short payload")
+				continue
+			}
+			i := int(binary.BigEndian.Uint32(p[28:]))
+			if i < 0 || i > c.N || !bytes.Equal(p[28:], slowPayload(c, i)) {
+				res.Errors = append(res.Errors, fmt.Sprintf("payload of datagram %d changed", i))
+				continue
+			}
+			if seen[i] {
+				res.Errors = append(res.Errors, fmt.Sprintf("datagram %d mirrored twice", i))
+			}
+			seen[i] = true
+		}
+	}
+	// quiesce: everything handed over so far has been sent or given up on, and is off the shaper
+	quiesce := func() {
+		t0 := time.Now()
+		for {
+			drain()
+			st := mirrorGoroutineState(fn)
+			if st == "syscall" || st == "running" || st == "runnable" {
+				if n, e := shaperBacklog(); e == nil && n > 0 && st == "syscall" {
+					res.Backpressure = true
+				}
+			}
+			idle := (st == "" && atomic.LoadInt32(&returned) == 1) || (strings.HasPrefix(st, "chan receive") && qlen() == 0)
+			if idle {
+				n, e := shaperBacklog()
+				if e != nil {
+					res.Setup = e.Error()
+					emit()
+				}
+				if n == 0 {
+					// the last frames are on their way through the receive softirq
+					for quiet := 0; quiet < 3; {
+						time.Sleep(20 * time.Millisecond)
+						if drain() == 0 {
+							quiet++
+						} else {
+							quiet = 0
+						}
+					}
+					res.WorkerGone = st == ""
+					return
+				}
+			}
+			if time.Since(t0) > 5*time.Minute {
+				res.Setup = "the link did not drain (state " + st + ")"
+				emit()
+			}
+			time.Sleep(5 * time.Millisecond)
+		}
+	}
+	quiesce()
+	for i := 0; i < c.N; i++ {
+		if seen[i] {
+			res.Seen++
+		} else if res.FirstMissing < 0 {
+			res.FirstMissing = i
+		}
+	}
+	hand(c.N)
+	quiesce()
+	res.AfterSeen = seen[c.N]
+	if len(res.Errors) > 5 {
+		res.Errors = res.Errors[:5]
+	}
+	emit()
+}
+
+func slowlinkSpace(tier string) mck.Space {
+	bursts := []int{300, 600}
+	ranges := [][2]int{{1000, 1400}, {4, 200}}
+	if tier == "thorough" {
+		bursts = []int{1, 100, 300, 600, 1200}
+		ranges = append(ranges, [2]int{1400, 1472}, [2]int{600, 600})
+	}
+	var cases []slowCase
+	for _, sf := range []bool{false, true} {
+		for _, n := range bursts {
+			for _, r := range ranges {
+				cases = append(cases, slowCase{sf, n, r[0], r[1]})
+			}
+		}
+	}
+	return mck.FuncSpace{N: uint64(len(cases)), F: func(idx uint64, c *mck.Ctx) {
+		sc := cases[idx]
+		proto := map[bool]string{false: "ipfix", true: "sflow"}[sc.SFlow]
+		desc := func() interface{} {
+			return map[string]interface{}{"mirror": proto, "burst": sc.N, "payload_len_min": sc.Lo, "payload_len_max": sc.Hi, "link": "veth, tbf 8mbit, own network namespace"}
+		}
+		c.SetCase(desc)
+		arg, _ := json.Marshal(sc)
+		cmd := exec.Command(os.Args[0])
+		cmd.Env = append(os.Environ(), slowEnv+"="+string(arg))
+		cmd.SysProcAttr = &syscall.SysProcAttr{Unshareflags: syscall.CLONE_NEWNET}
+		out, err := cmd.CombinedOutput()
+		var res slowResult
+		ok := false
+		for _, l := range strings.Split(string(out), "\n") {
+			if strings.HasPrefix(l, "R ") && json.Unmarshal([]byte(l[2:]), &res) == nil {
+				ok = true
+			}
+		}
+		if !ok || res.Setup != "" {
+			// no private network namespace / shaper here, or the child died: no verdict for this case
+			fmt.Fprintf(os.Stderr, "mirror.slowlink: no verdict for case %d: %v %s %s\n", idx, err, res.Setup, lastLines(out))
+			if t := string(out); !ok && (strings.Contains(t, "panic:") || strings.Contains(t, "fatal error:")) {
+				if strings.Contains(t, "main.mirror") || strings.Contains(t, "vflow/mirror.") {
+					c.Violation("mirror:slowlink:"+proto+":crash", lastLines(out), desc())
+					return
+				}
+				os.Exit(3) // the harness itself failed
+			}
+			c.Incomplete()
+			c.Skip()
+			return
+		}
+		switch {
+		case len(res.Errors) > 0:
+			c.Violation("mirror:slowlink:"+proto+":changed", strings.Join(res.Errors, "; "), desc())
+		case res.Seen != sc.N:
+			c.Violation("mirror:slowlink:"+proto+":lost-on-a-slow-link", fmt.Sprintf("%d of %d datagrams reached the third-party collector (first missing: #%d; mirror goroutine returned: %v)", res.Seen, sc.N, res.FirstMissing, res.WorkerGone), desc())
+		case !res.AfterSeen:
+			c.Violation("mirror:slowlink:"+proto+":stopped-mirroring", fmt.Sprintf("a datagram handed over after the link had drained was not mirrored (mirror goroutine returned: %v)", res.WorkerGone), desc())
+		default:
+			c.Nontrivial(mck.Hash64(arg))
+			c.Outcome(proto + ":all-delivered")
+			if res.Backpressure {
+				c.Count("sender_seen_waiting_on_the_link", 1)
+			}
+			c.Sample(desc)
+		}
+	}}
+}
+
+func lastLines(b []byte) string {
+	s := strings.TrimSpace(string(b))
+	if len(s) > 600 {
+		s = s[len(s)-600:]
+	}
+	return s
 }
